@@ -31,8 +31,16 @@ def drawCounts (order : Int) (n : Nat) : List Nat × Nat :=
     (if v < cnt.size then cnt.modify v (· + 1) else cnt, (chk * 31 + v + 1) % 1000000007, i + 1)) init
   (cnt.toList, chk)
 
+/-- a seed on the wire: `x<hex>` = the formatted seed (`"%s" % seed`, utf-8), `r<hex>` = a raw `bytes`
+seed, formatted by the model's `reprBytes` -/
+def parseSeed (t : String) : Option Bytes :=
+  match t.toList with
+  | 'r' :: cs => (bytesOfHexChars cs).map Rand.reprBytes
+  | _ => parseBytes t
+
 def handle (toks : List String) : Option String :=
   match toks with
+  | ["fmt_seed_bytes", b] => do let b ← parseBytes b; some ("ok " ++ hexOfBytes (Rand.reprBytes b))
   | ["bit_length", x] => do let x ← parseNat x; some ("ok " ++ toString (Rand.bitLength1 x))
   | ["entropy_to_bits", c] => do let c ← parseBytes c; some ("ok " ++ showBits (Rand.entropyToBits c))
   | ["lsb_of_ones", n] => do let n ← parseNat n; some ("ok " ++ toString (Rand.lsbOfOnes n))
@@ -77,7 +85,7 @@ def handle (toks : List String) : Option String :=
       let (cnt, chk) := drawCounts order order.toNat
       some s!"ok {Rand.upper256 order} {showNatList cnt} {chk}"
   | ["prng", seedStr, sizes, tab] => do
-      let seed ← parseBytes seedStr; let sizes ← parseNatList sizes; let tab ← parseTable tab
+      let seed ← parseSeed seedStr; let sizes ← parseNatList sizes; let tab ← parseTable tab
       let H := lookup1 tab
       let rec go : List Nat → Rand.PrngState → List String → Option (List String)
         | [], _, acc => some acc.reverse
@@ -89,10 +97,10 @@ def handle (toks : List String) : Option String :=
       | none => some "nofuel"
       | some outs => some ("ok " ++ " ".intercalate outs)
   | ["overshoot", seedStr, order, tab] => do
-      let seed ← parseBytes seedStr; let order ← parseNat order; let tab ← parseTable tab
+      let seed ← parseSeed seedStr; let order ← parseNat order; let tab ← parseTable tab
       some (resOpt toString (Rand.overshootModulo (lookup1 tab) seed order 3))
   | ["trytryagain", seedStr, order, bits, tab] => do
-      let seed ← parseBytes seedStr; let order ← parseInt order; let bits ← parseNat bits; let tab ← parseTable tab
+      let seed ← parseSeed seedStr; let order ← parseInt order; let bits ← parseNat bits; let tab ← parseTable tab
       some (resOpt toString (Rand.trytryagain (lookup1 tab) seed order bits 3 (32 * tab.length + 2)))
   | _ => none
 
